@@ -1,0 +1,12 @@
+//go:build verif
+
+package uasc
+
+// VerifE2SetRequestID sets the request id counter, as if that many requests
+// had been sent: the verification scenarios use it to reach the state in which
+// the 32 bit counter has wrapped around while an old request is still pending.
+func (s *SecureChannel) VerifE2SetRequestID(v uint32) {
+	s.requestIDMu.Lock()
+	s.requestID = v
+	s.requestIDMu.Unlock()
+}
